@@ -110,6 +110,10 @@ def C16(tier):
              params={"strides": "1"}),
         dict(name="replay_release", family="sort", trace="Trace_Sort", trace_constants=FIX, profile="release", cases_from=emits,
              params={"strides": "1"}),
+        dict(name="replay_debug_assertions_only", family="sort", trace="Trace_Sort", trace_constants=FIX, profile="relda", cases_from=emits,
+             params={"strides": "1"}),
+        dict(name="replay_overflow_checks_only", family="sort", trace="Trace_Sort", trace_constants=FIX, profile="reloc", cases_from=emits,
+             params={"strides": "1"}),
         dict(name="random_dev", family="sort", trace="Trace_Sort", trace_constants=FIX, profile="dev", chunk=3000,
              gen=dict(count=(2000, 12000), params={"oor_den": "2"})),
         dict(name="random_release", family="sort", trace="Trace_Sort", trace_constants=FIX, profile="release", chunk=3000,
@@ -122,7 +126,7 @@ def C16(tier):
                      "in- and out-of-range entries, every pivot sequence) replayed in dev (debug assertions + overflow checks) and "
                      "release (neither) builds; randomized longer lanes with half the requests out of range; Bins::index / Grid::index "
                      "with in- and out-of-range bin indexes and arities",
-                assumptions=SORT_ASSUME + ["build profiles: dev = debug-assertions + overflow-checks, release = neither (the two mixed configurations are covered at model level only)"],
+                assumptions=SORT_ASSUME + ["build profiles: dev = debug-assertions + overflow-checks, release = neither, relda / reloc = release code generation with only debug assertions / only overflow checks"],
                 trusted=["catch_unwind outcome classification (a worker abort or timeout is reported as its own outcome and is never accepted)"])
 
 
